@@ -4,7 +4,9 @@
 set -e
 D=$(mktemp -d)
 trap 'rm -rf "$D"' EXIT
-sh /verif/bin/build_harness.sh "$D"
-sh /verif/bin/build_harness.sh "$D" race
+VD="$(cd "$(dirname "$0")/.." && pwd)"
+sh "$VD/bin/build_harness.sh" "$D"
+sh "$VD/bin/build_harness.sh" "$D" race
+sh "$VD/bin/build_harness.sh" "$D" server
 tlc -h >/dev/null 2>&1 || true
 echo setup ok
